@@ -28,18 +28,23 @@ func main() { hx.Main("C02", run) }
 
 // A Case determines a tree (regenerated from the seed) and a plan.
 type Case struct {
-	Seed       uint64           `json:"seed"`
-	Regime     int              `json:"regime"`
-	Opts       chaingen.GenOpts `json:"opts"`
-	Directed   string           `json:"directed,omitempty"`   // a hand-built scenario instead of a generated tree
-	Checkpoint int              `json:"checkpoint,omitempty"` // tree index of the v2 checkpoint block the store is opened at (0 = genesis)
-	Plan       []mgrsim.Op      `json:"plan"`
+	Seed       uint64              `json:"seed"`
+	Regime     int                 `json:"regime"`
+	Opts       chaingen.GenOpts    `json:"opts"`
+	Directed   string              `json:"directed,omitempty"`   // a hand-built scenario instead of a generated tree
+	Checkpoint int                 `json:"checkpoint,omitempty"` // tree index of the v2 checkpoint block the store is opened at (0 = genesis)
+	Plan       []mgrsim.Op         `json:"plan"`
+	Net        *storeobs.NetParams `json:"net,omitempty"`         // network parameters other than the regime's
+	Cache      bool                `json:"cache,omitempty"`       // the store runs on chain.NewCacheDB(MemDB)
+	Concurrent bool                `json:"concurrent,omitempty"`  // two submitting goroutines and a polling one
+	BlindFirst int                 `json:"blind_first,omitempty"` // > 0: also an unobserved run whose first read is firstReads[BlindFirst-1]
 }
 
 // Tree regenerates the case's tree.
 func (c Case) Tree() *chaingen.Tree {
 	r := rng.New(c.Seed)
 	env := chaingen.NewEnv(r, c.Regime)
+	c.Net.Apply(env)
 	if c.Directed != "" {
 		return directed(r, env, c.Directed)
 	}
@@ -60,13 +65,20 @@ func runCase(t *chaingen.Tree, cs Case) outcome {
 	if cs.Checkpoint > 0 && cs.Checkpoint < len(t.Nodes) {
 		base = t.Nodes[cs.Checkpoint]
 	}
-	nd, err := storeobs.NewNode(t, chain.NewMemDB(), base)
+	if cs.Concurrent {
+		return runConcurrent(t, cs)
+	}
+	var db chain.DB = chain.NewMemDB()
+	if cs.Cache {
+		db = chain.NewCacheDB(db)
+	}
+	nd, err := storeobs.NewNode(t, db, base)
 	if err != nil {
 		return outcome{finding: &storeobs.Finding{Kind: "c02-store-does-not-open", Detail: err.Error()}}
 	}
 	o := outcome{nd: nd}
 	for _, op := range cs.Plan {
-		obs := nd.Do(op)
+		obs := storeobs.DoOp(nd, op)
 		o.calls++
 		if obs.Err {
 			o.errs++
@@ -223,6 +235,47 @@ func run(c *hx.Ctx) {
 		for k, n := range o.stats.RevertedKinds {
 			res.CountN("reverted-tx:"+k, n)
 		}
+		res.CountN("calls-whose-reorg-failed-half-way-and-was-rolled-back", o.stats.FailedReorgs)
+		res.CountN("applied-blocks-mixing-v1-and-v2-transactions", o.stats.MixedBlocks)
+		if o.stats.FinalCut {
+			res.Count("histories-reaching-the-final-cut-height")
+		}
+		if cs.Cache {
+			res.Count("backend:CacheDB-over-MemDB")
+		}
+		if cs.Net != nil {
+			res.Count(fmt.Sprintf("network:allow=%d,require=%d,final-cut=%d,maturity=%d", t.Env.Net.HardforkV2.AllowHeight, t.Env.Net.HardforkV2.RequireHeight, t.Env.Net.HardforkV2.FinalCutHeight, t.Env.Net.MaturityDelay))
+		}
+		if cs.Concurrent {
+			res.Count("histories-with-two-submitting-goroutines-and-a-poller")
+		}
+		if len(cs.Opts.Shape) > 0 {
+			res.Count("tree-shape:hub-and-comb")
+		}
+		if cs.Opts.Remine > 0 {
+			res.Count("trees-with-re-mined-and-same-block-chained-transactions")
+		}
+		for _, op := range cs.Plan {
+			switch op.Kind {
+			case "reopen":
+				res.Count("clean-reopens-in-the-middle-of-a-history")
+			case "adds":
+				res.Count("calls-with-arguments-overwritten-after-the-call")
+			case "addn":
+				res.Count("calls-with-a-second-call-started-from-the-reorg-callback")
+			}
+		}
+		if o.finding == nil && cs.BlindFirst > 0 {
+			if f, ran := runBlind(t, cs, cs.BlindFirst-1); ran {
+				res.Count("unobserved-runs (nothing read between the steps)")
+				res.Count("first-read-after-unobserved-run:" + firstReads[(cs.BlindFirst-1)%len(firstReads)])
+				if f != nil {
+					o.finding = f
+					res.Fail(f.Kind, f.Detail, map[string]any{"case": cs, "tree": describe(t)})
+					o.finding = nil
+				}
+			}
+		}
 		if f := o.finding; f != nil {
 			small := shrink(t, cs, f.Kind)
 			o2 := runCase(t, small)
@@ -232,7 +285,9 @@ func run(c *hx.Ctx) {
 			res.Fail(o2.finding.Kind, o2.finding.Detail, map[string]any{"case": small, "tree": describe(t), "steps": describeSteps(o2.nd, o2.finding.Step)})
 		}
 		if toCoq && o.nd != nil {
-			cases = append(cases, o.nd.CoqCase())
+			if cc := o.nd.CoqCase(); cc != "" {
+				cases = append(cases, cc)
+			}
 		}
 		if len(res.Samples) < 2 && o.nd != nil {
 			var ops []string
@@ -288,6 +343,31 @@ func run(c *hx.Ctx) {
 			cs.Opts.TxPerBlock = 2 + r.Intn(4)
 			cs.Opts.Branchiness = 2 + r.Intn(2)
 		}
+		if i%5 == 1 {
+			// the same transactions re-mined on sibling branches, and v1 transactions spending
+			// outputs created in the same block (ephemeral siacoin and siafund elements)
+			cs.Opts.Chained, cs.Opts.Remine = 1, 2
+		}
+		if i%10 == 9 {
+			// a hub (six siblings on one block) whose spokes grow into a comb
+			cs.Opts.Shape = []int{0, 1, 2, 3, 3, 3, 3, 3, 3, 4, 5, 10, 6, 11, 13, 12, 14}
+		}
+		if cs.Regime%3 == 1 && i%2 == 1 {
+			cs.Net = &[]storeobs.NetParams{{Allow: 2, Require: 3, FinalCut: 4}, {Allow: 4, Require: 4, FinalCut: 6}, {Allow: 1, Require: 6, FinalCut: 6}, {Allow: 5, Require: 9, FinalCut: 9}}[(i/2)%4]
+		}
+		switch i % 7 {
+		case 3:
+			if cs.Net == nil {
+				cs.Net = &storeobs.NetParams{}
+			}
+			cs.Net.Maturity = 1
+		case 5:
+			if cs.Net == nil {
+				cs.Net = &storeobs.NetParams{}
+			}
+			cs.Net.Maturity = 5
+		}
+		cs.Cache = i%4 == 3
 		var t *chaingen.Tree
 		func() {
 			defer func() { recover() }()
@@ -314,6 +394,15 @@ func run(c *hx.Ctx) {
 			if len(cands) > 0 {
 				cs.Checkpoint = cands[pr.Intn(len(cands))]
 			}
+		}
+		switch {
+		case i%12 == 6 && cs.Checkpoint == 0:
+			cs.Concurrent = true
+		case i%3 == 1:
+			cs.Plan = storeobs.Spice(rng.New(cs.Seed^0xabc), cs.Plan, cs.Checkpoint == 0 && i%2 == 0)
+		}
+		if i%3 == 0 && cs.Checkpoint == 0 && !cs.Concurrent {
+			cs.BlindFirst = 1 + (i/3)%len(firstReads)
 		}
 		doCase(cs, true)
 	}
